@@ -107,7 +107,7 @@ theorem merge_indices_in_block (sel : Mesh → List (List Nat)) (ms : List Mesh)
 theorem transforms_are_rebinding (t o : V3) (k fx fy fz : Rat) (r : M3) :
     translate t = mapRebind (fun p => p.add t) ∧ scale k o = mapRebind (scaleMap k o) ∧
     scaleXyz fx fy fz o = mapRebind (scaleXyzMap fx fy fz o) ∧ rotate r o = mapRebind (rotateMap r o) ∧
-    (∀ d, flatten d = mapInPlace (fun p => p.set d 0)) :=
+    (∀ d, flatten d = mapRebind (fun p => p.set d 0)) :=
   ⟨rfl, rfl, rfl, rfl, fun _ => rfl⟩
 
 /-- P0 `transform_exact`: a rebinding transform (translate, scale, scale_xyz, rotate: any map `f`) applied to mesh `i`
@@ -157,7 +157,7 @@ theorem alias_free_step (s : State) (op : Op) (haf : AliasFree s) : AliasFree (s
   | scale i k o => exact aliasFree_mapRebind _ s i haf
   | scaleXyz i fx fy fz o => exact aliasFree_mapRebind _ s i haf
   | rotate i r o => exact aliasFree_mapRebind _ s i haf
-  | flatten i d => exact aliasFree_mapInPlace _ s i haf
+  | flatten i d => exact aliasFree_mapRebind _ s i haf
   | normalize i c =>
     simp only [step, normalize]
     cases s.meshes[i]? with
